@@ -20,7 +20,7 @@ ASSUMPTIONS = ['a blocked constructor for an unknown context is judged by C20, h
 SHRINK = 'greedy'
 SHRINK_RUNS = 10
 TIME_BUDGET = {'quick': 170, 'thorough': 1700}
-REQUIRED = {'quick': {'op:create_duplicate': 30, 'op:delete': 60, 'op:start_worker': 80, 'op:start_worker_unknown': 20, 'op:delete_unknown': 20, 'recreate_after_delete': 20,
+REQUIRED = {'quick': {'op:create_duplicate': 30, 'op:delete': 60, 'op:start_worker': 80, 'op:start_worker_unknown': 20, 'op:delete_unknown': 20, 'recreate_after_delete': 20, '>=2_live_workers_in_one_context': 60,
                       'worker_result_checked': 60},
             'thorough': {'op:create_duplicate': 300, 'op:delete': 600, 'op:start_worker': 800}}
 TARGETS = {'t1': vtargets.ctx_t1, 't2': vtargets.ctx_t2}
@@ -41,7 +41,8 @@ def strategy(tier):
         st.tuples(st.just('create'), i, st.sampled_from(['t1', 't2']), st.sampled_from([None, 5, 9])),
         st.tuples(st.just('create_duplicate'), i, st.sampled_from(['t1', 't2'])),
         st.tuples(st.just('delete'), i), st.tuples(st.just('delete_unknown'), i),
-        st.tuples(st.just('start_worker'), i), st.tuples(st.just('start_worker'), i), st.tuples(st.just('start_worker_unknown'), i),
+        st.tuples(st.just('start_worker'), i), st.tuples(st.just('start_worker'), i), st.tuples(st.just('start_worker'), i, st.sampled_from([2, 3])),
+        st.tuples(st.just('start_worker_unknown'), i),
         st.tuples(st.just('enqueue'), st.integers(0, 5), st.integers(0, 99)), st.tuples(st.just('enqueue'), st.integers(0, 5), st.integers(0, 99)),
         st.tuples(st.just('enqueue'), st.integers(0, 5), st.integers(0, 99)), st.tuples(st.just('wait'), st.integers(0, 5)))
     first = st.tuples(st.just('create'), st.just(1), st.sampled_from(['t1', 't2']), st.sampled_from([None, 5]))
@@ -130,10 +131,13 @@ def run_case(case, ctx):
                     if i not in model:
                         continue
                     out.nontrivial = True
-                    w = bounded(PersistentRemoteWorker, 25, None, context=i, host=srv.addr)
-                    rec = {'w': w, 'id': i, 't': model[i]['t'], 'k': model[i]['k'], 'alive': True}
-                    model[i]['workers'].append(rec)
-                    workers.append(rec)
+                    for _ in range(op[2] if len(op) > 2 else 1):
+                        w = bounded(PersistentRemoteWorker, 25, None, context=i, host=srv.addr)
+                        rec = {'w': w, 'id': i, 't': model[i]['t'], 'k': model[i]['k'], 'alive': True}
+                        model[i]['workers'].append(rec)
+                        workers.append(rec)
+                    if len([r for r in model[i]['workers'] if r['alive']]) >= 2:
+                        out.label('>=2_live_workers_in_one_context')
                 elif what == 'start_worker_unknown':
                     i = op[1]
                     if i in model:
